@@ -306,13 +306,16 @@ func body(p program) func() string {
 		final := w.finalState()
 		// after quiescence: one probe Send per event type. Every registry call has returned before it
 		// starts, so it must deliver exactly to the pipelines some real-time-consistent order leaves behind.
-		for _, k := range []int{0, 1} {
-			c := &call{Op: alphabet[k], Thread: len(p.Threads)}
-			c.CallT = clk.tick()
-			w.apply(c.Op, c)
-			c.RetT = clk.tick()
-			calls = append(calls, c)
-		}
+		// (run without choice points: the probes are sequential, their own fan-out is C01/C03's subject)
+		vrt.Quiet(func() {
+			for _, k := range []int{0, 1} {
+				c := &call{Op: alphabet[k], Thread: len(p.Threads)}
+				c.CallT = clk.tick()
+				w.apply(c.Op, c)
+				c.RetT = clk.tick()
+				calls = append(calls, c)
+			}
+		})
 		for _, c := range calls {
 			if c.Op.Kind == "send" {
 				c.Delivered = deliveriesOf(w.log, c)
